@@ -2,6 +2,7 @@
 from vlib.core import Group
 from vlib.props import codeccommon as cm
 from vlib.gen import hx, unhx, all_strings
+from vlib import e2egen
 
 ID = "C14"
 LEVEL = "proof"
@@ -15,10 +16,11 @@ RULE = ("xtext/rt probes on all five codec functions: every Unicode scalar value
 THEOREMS = ["xtext_roundtrip", "utf8xtext_roundtrip_cps", "unitext_roundtrip_cps"]
 KNOWN = {}
 NEEDS = set(b"+= \\\x7f\t") | set(range(0x80, 0x100)) | set(range(0, 0x20))
-nontrivial = lambda case, ans: any(b in NEEDS for b in unhx(case.split("\t")[2]))
-signature = lambda case, ans: case.split("\t")[0] + "/" + case.split("\t")[1] + "/" + ans.split("/")[0]
+nontrivial = lambda case, ans: case.startswith("e2e") or any(b in NEEDS for b in unhx(case.split("\t")[2]))
+signature = lambda case, ans: ("e2e/" + case.split("\t")[1][:40]) if case.startswith("e2e") else case.split("\t")[0] + "/" + case.split("\t")[1] + "/" + ans.split("/")[0]
 mutate = lambda case, rng: []
-shrink = cm.shrink_hex_field(2)
+_sh = cm.shrink_hex_field(2)
+shrink = lambda case: [] if case.startswith("e2e") else _sh(case)
 
 
 def groups(tier, rng):
@@ -45,7 +47,8 @@ def groups(tier, rng):
         dec.append("xtext\ttyped\t" + hx(s))
     return [Group("codec/single-scalars", singles, exhaustive=(tier == "thorough"), theorems=THEOREMS),
             Group("codec/strings", strings, theorems=THEOREMS),
-            Group("codec/decoders", dec, theorems=THEOREMS, monitor=False)]
+            Group("codec/decoders", dec, theorems=THEOREMS, monitor=False),
+            Group("e2e/envelope", e2egen.c14_cases(tier, rng), theorems=THEOREMS, project=lambda c, a: "")]
 
 
 replay_groups = cm.replay_groups_factory(Group, THEOREMS)
